@@ -581,7 +581,7 @@ Proof.
   - rewrite Hval. assumption.
 Qed.
 
-(* ---- concat: the limb-straddle defect (F5) ------------------------------------------ *)
+(* ---- concat / mul: full statements ------------------------------------------------------ *)
 From PyRTL Require Import Netlist.Sem.
 
 (* what _build_concat should compute *)
@@ -594,22 +594,134 @@ Definition c_concat_full_statement : Prop :=
   /\ limbs_to_Z (c_concat args wd)
      = concat_spec (map (fun wa => (limbs_to_Z (snd wa), fst wa)) args) mod 2 ^ wd.
 
-(* concat(c/32 = 5, a/33 = 7) into 65 bits: the last piece (c) straddles limbs 0/1 *)
-Lemma c_concat_refuted_lemma : ~ c_concat_full_statement.
-Proof.
-  intros H.
-  specialize (H [(32, c_pack (nlimbs 32) 5); (33, c_pack (nlimbs 33) 7)] 65).
-  destruct H as [_ H].
-  - discriminate.
-  - repeat constructor; cbn [fst snd]; try lia;
-      (apply c_pack_ok; [lia|split; [lia|reflexivity]]).
-  - cbn. lia.
-  - vm_compute in H. discriminate H.
-Qed.
-
 (* what _build_mul should compute *)
 Definition c_mul_full_statement : Prop :=
   forall wa a wb b wd,
   0 <= wa -> 0 <= wb -> limbs_ok wa a -> limbs_ok wb b -> 0 <= wd ->
   limbs_ok wd (c_mul wa a wb b wd)
   /\ limbs_to_Z (c_mul wa a wb b wd) = (limbs_to_Z a * limbs_to_Z b) mod 2 ^ wd.
+
+(* ---- select: one term per destination bit ------------------------------------------------ *)
+From PyRTL Require Import Sim.FastModelProofs.   (* sel_bit, select_spec_testbit *)
+
+Lemma lor_list_cons x r : lor_list (x :: r) = Z.lor x (lor_list r).
+Proof.
+  unfold lor_list at 1. rewrite fold_lor_acc. f_equal. destruct r as [|y r]; simpl; reflexivity.
+Qed.
+
+Lemma nth_error_skipn' {A} : forall a (l : list A) j, nth_error (skipn a l) j = nth_error l (a + j).
+Proof.
+  induction a as [|a IH]; intros l j; [reflexivity|].
+  destruct l as [|x l]; [destruct j; reflexivity|]. cbn [skipn Nat.add nth_error]. apply IH.
+Qed.
+
+Lemma nth_error_firstn' {A} : forall m (l : list A) i,
+  nth_error (firstn m l) i = if (i <? m)%nat then nth_error l i else None.
+Proof.
+  induction m as [|m IH]; intros l i.
+  - cbn [firstn]. destruct i; reflexivity.
+  - destruct l as [|x l];
+      [destruct i; cbn [firstn nth_error];
+       match goal with |- context [if ?c then _ else _] => destruct c end; reflexivity|].
+    destruct i as [|i]; [reflexivity|]. cbn [firstn nth_error]. rewrite IH.
+    replace (S i <? S m)%nat with (i <? m)%nat by (destruct (i <? m)%nat eqn:E; lia). reflexivity.
+Qed.
+
+Lemma in_firstn' {A} m (l : list A) b : In b (firstn m l) -> In b l.
+Proof. intros H. rewrite <- (firstn_skipn m l). apply in_or_app. left. assumption. Qed.
+
+Lemma in_skipn' {A} m (l : list A) b : In b (skipn m l) -> In b l.
+Proof. intros H. rewrite <- (firstn_skipn m l). apply in_or_app. right. assumption. Qed.
+
+Definition sel_term (src : list Z) (eb : Z * Z) : Z :=
+  wrap (Z.shiftl (Z.land 1 (Z.shiftr (rd src (Z.to_nat (snd eb / 64))) (snd eb mod 64))) (fst eb)).
+
+Lemma sel_term_testbit w src en b j :
+  0 <= w -> limbs_ok w src -> 0 <= b < w -> 0 <= en < 64 -> 0 <= j ->
+  Z.testbit (sel_term src (en, b)) j = (j =? en) && Z.testbit (limbs_to_Z src) b.
+Proof.
+  intros Hw Hs Hb Hen Hj. unfold sel_term. cbn [fst snd].
+  pose proof (nlimbs_bounds w Hw) as Hbd.
+  rewrite (rd_spec w) by (try assumption; Z.to_euclidean_division_equations; lia).
+  rewrite land_1_shiftr by (Z.to_euclidean_division_equations; lia).
+  rewrite limb_testbit by (Z.to_euclidean_division_equations; lia).
+  replace (b mod 64 <? 64) with true by (Z.to_euclidean_division_equations; lia). cbn [andb].
+  replace (64 * Z.of_nat (Z.to_nat (b / 64)) + b mod 64) with b
+    by (Z.to_euclidean_division_equations; lia).
+  unfold wrap. rewrite testbit_mod_pow2 by lia. rewrite Z.shiftl_spec by assumption.
+  unfold b2z. destruct (Z.testbit (limbs_to_Z src) b).
+  - destruct (j =? en) eqn:E.
+    + assert (j = en) by lia. subst. replace (en <? 64) with true by lia.
+      rewrite Z.sub_diag. reflexivity.
+    + destruct (j <? 64); [|reflexivity].
+      destruct (Z.lt_ge_cases j en); [apply Z.testbit_neg_r; lia|].
+      replace (j - en) with (Z.succ (j - en - 1)) by lia.
+      change 1 with (2 * 0 + Z.b2z true). rewrite Z.testbit_succ_r by lia. apply Z.bits_0.
+  - rewrite andb_false_r. destruct (j <? 64); [apply Z.bits_0|reflexivity].
+Qed.
+
+Lemma select_limb_testbit w src : 0 <= w -> limbs_ok w src ->
+  forall chunk k j,
+  (forall b, In b chunk -> 0 <= b < w) -> 0 <= k -> k + Z.of_nat (length chunk) <= 64 -> 0 <= j ->
+  Z.testbit (lor_list (map (sel_term src) (enum_from k chunk))) j
+  = if j <? k then false else sel_bit (limbs_to_Z src) chunk (j - k).
+Proof.
+  intros Hw Hs. induction chunk as [|b rest IH]; intros k j Hb Hk Hlen Hj.
+  - cbn. rewrite Z.bits_0. unfold sel_bit. destruct (Z.to_nat _); destruct (j <? k); reflexivity.
+  - cbn [enum_from map]. rewrite lor_list_cons, Z.lor_spec.
+    cbn [length] in Hlen.
+    rewrite (sel_term_testbit w) by (try assumption; try lia; apply Hb; left; reflexivity).
+    rewrite IH by (try lia; intros; apply Hb; right; assumption).
+    destruct (j <? k) eqn:E1.
+    + replace (j =? k) with false by lia. replace (j <? k + 1) with true by lia. reflexivity.
+    + destruct (j =? k) eqn:E2.
+      * assert (j = k) by lia. subst. replace (k <? k + 1) with true by lia.
+        rewrite Z.sub_diag, sel_bit_0, orb_false_r. reflexivity.
+      * replace (j <? k + 1) with false by lia. cbn [andb orb].
+        rewrite sel_bit_succ by lia. f_equal. lia.
+Qed.
+
+Theorem c_select_correct w src idx wd :
+  0 <= w -> limbs_ok w src -> (forall b, In b idx -> 0 <= b < w) ->
+  0 <= wd <= Z.of_nat (length idx) ->
+  limbs_ok wd (c_select src idx wd)
+  /\ limbs_to_Z (c_select src idx wd) = select_spec (limbs_to_Z src) idx mod 2 ^ wd.
+Proof.
+  intros Hw Hs Hidx Hwd. pose proof (nlimbs_bounds wd ltac:(lia)) as Hb.
+  set (x := limbs_to_Z src). set (r := select_spec x idx mod 2 ^ wd).
+  assert (Hr : 0 <= r < 2 ^ wd) by (apply Z.mod_pos_bound; apply pow2_pos; lia).
+  assert (HM : c_select src idx wd = map (limb r) (idxs wd)).
+  { unfold c_select, idxs. apply map_ext_in. intros n Hn. apply in_seq in Hn.
+    unfold c_select_limb. fold (sel_term src).
+    set (chunk := skipn (64 * n) (firstn (Z.to_nat (Z.min wd (64 * (Z.of_nat n + 1)))) idx)).
+    assert (Hclen : Z.of_nat (length chunk) <= 64).
+    { unfold chunk. rewrite skipn_length, firstn_length. lia. }
+    assert (Hcin : forall b, In b chunk -> 0 <= b < w).
+    { intros b Hin. apply Hidx. unfold chunk in Hin.
+      apply (in_firstn' (Z.to_nat (Z.min wd (64 * (Z.of_nat n + 1))))).
+      eapply in_skipn'. exact Hin. }
+    apply Z.bits_inj'. intros j Hj.
+    rewrite (select_limb_testbit w src Hw Hs chunk 0 j) by (try assumption; lia).
+    replace (j <? 0) with false by lia. rewrite Z.sub_0_r.
+    rewrite limb_testbit by assumption. unfold r. rewrite testbit_mod_pow2 by lia.
+    rewrite select_spec_testbit by lia. fold x.
+    unfold sel_bit, chunk. rewrite nth_error_skipn', nth_error_firstn'.
+    destruct (j <? 64) eqn:E1; cbn [andb].
+    - destruct (64 * Z.of_nat n + j <? wd) eqn:E2.
+      + replace ((64 * n + Z.to_nat j <? Z.to_nat (Z.min wd (64 * (Z.of_nat n + 1))))%nat) with true
+          by (symmetry; apply Nat.ltb_lt; lia).
+        replace (Z.to_nat (64 * Z.of_nat n + j)) with (64 * n + Z.to_nat j)%nat by lia. reflexivity.
+      + replace ((64 * n + Z.to_nat j <? Z.to_nat (Z.min wd (64 * (Z.of_nat n + 1))))%nat) with false
+          by (symmetry; apply Nat.ltb_ge; lia). reflexivity.
+    - replace ((64 * n + Z.to_nat j <? Z.to_nat (Z.min wd (64 * (Z.of_nat n + 1))))%nat) with false
+        by (symmetry; apply Nat.ltb_ge; lia). reflexivity. }
+  assert (Hval : limbs_to_Z (c_select src idx wd) = r).
+  { rewrite HM. unfold idxs. rewrite limbs_of_Z. change (64 * Z.of_nat 0) with 0.
+    rewrite Z.pow_0_r, Z.div_1_r. apply Z.mod_small.
+    split; [lia|]. eapply Z.lt_le_trans; [apply Hr|]. apply Z.pow_le_mono_r; lia. }
+  split; [|exact Hval]. split; [|split].
+  - rewrite HM. unfold idxs. rewrite map_length, seq_length. reflexivity.
+  - rewrite HM. apply Forall_forall. intros y Hy. apply in_map_iff in Hy.
+    destruct Hy as [k [<- _]]. apply limb_range.
+  - rewrite Hval. exact Hr.
+Qed.
